@@ -5,7 +5,7 @@ from xrlcheck import verdict, NCPU
 
 def run(ctx):
     ctx.tlc_must_pass("MC_C16", workers=4)
-    nh, ln = (48, 500) if ctx.quick else (2000, 1000)
+    nh, ln = (48, 500) if ctx.quick else (1200, 1000)
     n = 0; nq = 0; outs = []
     for cfgname in (("A", "B") if not ctx.quick else ("A", "B")):
         b = ctx.build("plain", cfgname); exe = ctx.harness(b)
